@@ -1,7 +1,7 @@
 (* C04: for the expression core the emitted JavaScript is the print of the JavaScript tree to_js e. *)
 From Coq Require Import ZArith List Bool String Lia.
 From DRX Require Import Py.PyBytes Py.PyStr Py.PyString Model.LingoAst Model.LingoGen Model.LingoOps Spec.SpecLingo Spec.SpecJs
-  Gen.Gen_Lingo Proofs.LingoExecFacts.
+  Gen.Gen_Lingo Proofs.LingoExecFacts Proofs.StrIntFacts.
 Import ListNotations.
 Open Scope string_scope.
 Open Scope list_scope.
@@ -18,8 +18,8 @@ Proof.
   cbn [In] in Hin. repeat (destruct Hin as [<-|Hin]; [assumption|]). contradiction.
 Qed.
 
-Lemma js_call_plain nm it fm strs ln :
-  plain_call_name nm = true -> js_call nm it fm true strs ln = (nm ++ "(" ++ join ", " (rev strs) ++ ")")%string.
+Lemma js_call_plain nm it fm strs ln ops :
+  plain_call_name nm = true -> js_call nm it fm true strs ln (go_sym nm ops) = (nm ++ "(" ++ join ", " (rev strs) ++ ")")%string.
 Proof.
   unfold plain_call_name. intros H. apply andb_true_iff in H. destruct H as [H _]. apply negb_true_iff in H.
   unfold js_call, js_call_code.
@@ -47,6 +47,20 @@ Proof.
   intros H Hok pc ind. rewrite map_rev, rev_involutive. rewrite (H Hok pc ind). rewrite map_map. reflexivity.
 Qed.
 
+Lemma js_receiver_reify en pc x s : js_ok en x ->
+  js_receiver (reify_e en pc x) s = if needs_paren en x then ("(" ++ s ++ ")")%string else s.
+Proof.
+  destruct x as [n|k|n|i|i|n|n|o a b|a|a|f args|f args|items|items]; intros Hok; cbn [reify_e needs_paren js_receiver]; try reflexivity.
+  - rewrite str_of_int_no_quote. reflexivity.
+  - destruct (nth k (e_consts en) (CInt 0)); cbn [const_node js_receiver]; [|rewrite str_of_int_no_quote; reflexivity].
+    match goal with |- context[starts_with ?q ?t] => destruct (starts_with q t) end; reflexivity.
+  - cbn [js_ok] in Hok. destruct (nth i (e_locals en) (Leaf KLocal "" 0 true)) as [k nme p fl| | | | | | | | | | | | | | | | | | | | |]; try contradiction. destruct k; try contradiction. reflexivity.
+  - rewrite reify_args_eq. destruct (reify_args en pc args); reflexivity.
+  - rewrite reify_args_eq. destruct (reify_args en pc args); reflexivity.
+  - rewrite reify_args_eq. destruct (reify_args en pc items); reflexivity.
+  - rewrite reify_args_eq. destruct (reify_args en pc items); reflexivity.
+Qed.
+
 Theorem gen_js_is_pp fm en : forall e, PJs fm en e.
 Proof.
   apply (expr_ind2 (PJs fm en) (PJsArgs fm en)); unfold PJs.
@@ -59,17 +73,17 @@ Proof.
     destruct (fm && String.eqb (name_of (nth i (e_params en) (Leaf KParam "" 0 true))) "me"); reflexivity.
   - intros n _ pc ind. reflexivity.
   - intros n _ pc ind. reflexivity.
-  - intros o x y IHx IHy [Hx Hy] pc ind. cbn [reify_e to_js gen_js]. rewrite (IHx Hx), (IHy Hy).
-    destruct o; reflexivity.
+  - intros o x y IHx IHy [Hx Hy] pc ind. cbn [reify_e to_js gen_js]. rewrite (IHx Hx), (IHy Hy), (js_receiver_reify en pc x _ Hx).
+    unfold js_recv. destruct o; try reflexivity; cbn [js_binop]; destruct (needs_paren en x); reflexivity.
   - intros x IHx Hx pc ind. cbn [reify_e to_js gen_js]. rewrite (IHx Hx). reflexivity.
   - intros x IHx Hx pc ind. cbn [reify_e to_js gen_js]. rewrite (IHx Hx). reflexivity.
   - intros f l IHl [Hp Hl] pc ind. rewrite js_ok_args_eq in Hl. cbn [reify_e to_js]. rewrite reify_args_eq.
     destruct (reify_args en pc l) as [ns pa] eqn:Er. cbn [gen_js].
-    rewrite (gv_none _ _ Hp). cbn [option_map set_last]. rewrite (js_call_plain _ _ _ _ _ Hp).
+    rewrite (gv_none _ _ Hp). cbn [option_map set_last]. rewrite (js_call_plain _ _ _ _ _ _ Hp).
     pose proof (js_list_strs fm en l IHl Hl pc ind) as E. rewrite Er in E. cbn [fst] in E. rewrite E. reflexivity.
   - intros f l IHl [Hp Hl] pc ind. rewrite js_ok_args_eq in Hl. cbn [reify_e to_js]. rewrite reify_args_eq.
     destruct (reify_args en pc l) as [ns pa] eqn:Er. cbn [gen_js].
-    rewrite (gv_none _ _ Hp). cbn [option_map set_last]. rewrite (js_call_plain _ _ _ _ _ Hp).
+    rewrite (gv_none _ _ Hp). cbn [option_map set_last]. rewrite (js_call_plain _ _ _ _ _ _ Hp).
     pose proof (js_list_strs fm en l IHl Hl pc ind) as E. rewrite Er in E. cbn [fst] in E. rewrite E. reflexivity.
   - intros l IHl Hl pc ind. cbn [js_ok] in Hl. rewrite js_ok_args_eq in Hl. cbn [reify_e to_js]. rewrite reify_args_eq.
     destruct (reify_args en pc l) as [ns pa] eqn:Er. cbn [gen_js].
@@ -117,7 +131,7 @@ Proof.
       apply negb_true_iff in H. rewrite H. reflexivity.
     + destruct fm; reflexivity.
   - intros o x y Hx Hy. cbn [to_js name_e]. pose proof (binop_of_js o) as Hb.
-    destruct (js_binop o) eqn:Eo; cbn [read_js]; rewrite Hb, Hx, Hy; reflexivity.
+    destruct (js_binop o) eqn:Eo; cbn [read_js]; unfold js_recv; try destruct (needs_paren en x); cbn [read_js]; rewrite Hb, Hx, Hy; reflexivity.
   - intros x Hx. cbn [to_js name_e read_js]. rewrite Hx. reflexivity.
   - intros x Hx. cbn [to_js name_e read_js]. rewrite Hx. reflexivity.
   - intros f l Hl. cbn [to_js name_e read_js]. rewrite (all_some_map (name_e fm en) (to_js fm en) l Hl). reflexivity.
